@@ -12,6 +12,9 @@ leverage-score distribution must be float64 (documented exception); for complex 
 mathematically real (singular values, norms, eigenvalues, CP weights = column norms) may be real
 of the same precision (float64).  Library exceptions are counted as guarded-out, never violations.
 """
+import contextlib
+import io
+
 import numpy as np
 
 from vmc.runner import Check
@@ -147,7 +150,7 @@ class C18(Check):
         err = None
         try:
             tenalg.set_backend(ta)
-            with np.errstate(all="ignore"):
+            with np.errstate(all="ignore"), contextlib.redirect_stdout(io.StringIO()):
                 try:
                     res = var["fn"](d)
                 except Exception as ex:  # library exception on this input: counted, not a dtype verdict
@@ -161,8 +164,6 @@ class C18(Check):
         if err is not None:
             ctx.count(f"guarded_out:{name}:{type(err).__name__}")
             ctx.outcome(f"guarded_out:exception:{dt}")
-            if len(ctx.samples) < 2 and False:
-                ctx.sample({"case": case, "exception": repr(err)[:200]})
             return
 
         leaves = []
@@ -207,7 +208,7 @@ class C18(Check):
             if not want_ok:
                 bad += 1
                 aspect = f"{role_clean}-dtype" if kind == "arr" else f"{role_clean}-scalar-dtype"
-                cls = f"{dt}->{got}/{label}" + (f"/tenalg={ta}" if e["sigta"] and ta != "core" else "")
+                cls = f"{dt}->{got}/{label.split('|shape=')[0]}" + (f"/tenalg={ta}" if e["sigta"] and ta != "core" else "")
                 ctx.violation(f"{name}/{aspect}/{cls}",
                               f"{tag}: returned {path or 'result'} has dtype {got} (shape {getattr(obj, 'shape', ())}), expected {want}; "
                               f"all arrays: {seen[:12]}")
